@@ -48,6 +48,10 @@ func runWorker(lo, hi int, obs func(i int) string) {
 
 func isolate(prop string, cfg *Config, n int, batch int, perCase time.Duration) *isoResult {
 	res := &isoResult{Obs: map[int]string{}, Diverged: map[int]string{}}
+	// C11 / C12 measure terminating searches against wall-clock limits: a case that ran out of time is run once more, alone and
+	// with four times the limit, before it is reported (a loaded machine is not a search that hangs)
+	retried := map[int]bool{}
+	scale := time.Duration(1)
 	var run func(lo, hi int)
 	run = func(lo, hi int) {
 		if lo >= hi {
@@ -59,7 +63,7 @@ func isolate(prop string, cfg *Config, n int, batch int, perCase time.Duration) 
 			}
 			return
 		}
-		ctx, cancel := context.WithTimeout(context.Background(), 5*time.Second+time.Duration(hi-lo)*perCase)
+		ctx, cancel := context.WithTimeout(context.Background(), scale*(5*time.Second+time.Duration(hi-lo)*perCase))
 		defer cancel()
 		cmd := exec.CommandContext(ctx, os.Args[0], prop, "-mode", "worker", "-arg", fmt.Sprintf("%d:%d", lo, hi),
 			"-seed", fmt.Sprint(cfg.Seed), "-n", fmt.Sprint(cfg.N), "-tier", cfg.Tier)
@@ -116,6 +120,14 @@ func isolate(prop string, cfg *Config, n int, batch int, perCase time.Duration) 
 			case len(e) > 0:
 				reason = "crash: " + firstLine(e)
 			}
+		}
+		if reason == "timeout" && (prop == "C11" || prop == "C12") && !retried[first] {
+			retried[first] = true
+			scale = 4
+			run(first, first+1)
+			scale = 1
+			run(first+1, hi)
+			return
 		}
 		res.Diverged[first] = reason
 		run(first+1, hi)
